@@ -27,7 +27,10 @@ Definition lzma1_construct2 (input : list Z) (uncomp_size lc lp pb dict_size : Z
   : outcome lzma1 :=
   if (8 <? lc) || (4 <? lp) || (4 <? pb) then Err E_INVALID_INPUT else
   do ds <- lzma1_get_dict_size dict_size;
-  do ds1 <- (if (uncomp_size <=? U64_HALF) && (uncomp_size <? ds)
+  (* the buffer shrinks to a small declared size - but not when a preset dictionary has to fit
+     as well (fix in /repo; before it the shrunk buffer dropped the older part of the preset) *)
+  do ds1 <- (if (match preset with None => true | Some _ => false end) &&
+                (uncomp_size <=? U64_HALF) && (uncomp_size <? ds)
              then lzma1_get_dict_size (wrap32 uncomp_size) else Ok ds);
   do rc <- rdec_init input;
   do ds2 <- lzma1_get_dict_size ds1;
